@@ -149,6 +149,7 @@ class TypeScriptDuplicateAnalyzer(BaseTokenAnalyzer):  # thailint: ignore[srp.vi
             return set()
 
         jsdoc_lines: set[int] = set()
+        self._source_lines = content.split("\n")
         self._collect_jsdoc_lines_recursive(root, jsdoc_lines)
         return jsdoc_lines
 
@@ -165,7 +166,19 @@ class TypeScriptDuplicateAnalyzer(BaseTokenAnalyzer):  # thailint: ignore[srp.vi
             return False
 
         text = node.text.decode() if node.text else ""
-        return text.startswith("/**")
+        if text.startswith("/**"):
+            return True
+        # Any other block comment that has its lines to itself is not code either
+        return text.startswith("/*") and self._has_lines_to_itself(node)
+
+    def _has_lines_to_itself(self, node: Node) -> bool:
+        """Check that nothing but whitespace precedes and follows the comment on its lines."""
+        lines = getattr(self, "_source_lines", None)
+        if not lines or node.end_point[0] >= len(lines):
+            return False
+        before = lines[node.start_point[0]].encode("utf8")[: node.start_point[1]]
+        after = lines[node.end_point[0]].encode("utf8")[node.end_point[1] :]
+        return not before.strip() and not after.strip()
 
     def _add_comment_lines_to_set(self, node: Node, jsdoc_lines: set[int]) -> None:
         """Add comment node's line range to set.
